@@ -832,23 +832,63 @@ theorem argsGo_colon (args0 r a : Bytes) (am : Bool) :
   simp only [argsGo, show ¬((58:UInt8) = 0) by decide, ↓reduceIte, argsStart]
   rfl
 
-/-- the `while` loop over one type alternative -/
-theorem argsGo_alt (args0 q : Bytes) (a : Bytes) (ha : ∀ c ∈ a, tagChar c = true) :
-    ∀ (cur : Bytes) (am : Bool),
-    argsGo args0 (a ++ q) cur am =
-      if a.length ≤ cur.length then argsGo args0 q (cur.drop a.length) (am && a.isPrefixOf cur)
-      else none := by
+/-- once `arg_match` is false the running `arg_str` is not looked at any more -/
+theorem argsGo_false (args0 : Bytes) : ∀ (p cur : Bytes),
+    argsGo args0 p cur false = argsGo args0 p [] false := by
+  intro p
+  induction p with
+  | nil => intro cur; simp [argsGo]
+  | cons c r ih =>
+    intro cur
+    by_cases h0 : c = 0
+    · simp [argsGo, h0]
+    · by_cases h58 : c = 58
+      · subst h58; simp [argsGo]
+      · simp only [argsGo, h0, h58, ↓reduceIte, Bool.false_eq_true]
+        rw [ih cur, ih []]
+
+/-- the `while` loop over one type alternative after a mismatch -/
+theorem argsGo_alt_false (args0 q : Bytes) (a : Bytes) (ha : ∀ c ∈ a, tagChar c = true) (cur : Bytes) :
+    argsGo args0 (a ++ q) cur false = argsGo args0 q [] false := by
   induction a with
-  | nil => intro cur am; simp
+  | nil => simpa using argsGo_false args0 q cur
   | cons c a' ih =>
-    intro cur am
     obtain ⟨c0, c58⟩ := tagChar_ne (ha c List.mem_cons_self)
     have ha' : ∀ c ∈ a', tagChar c = true := fun x hx => ha x (List.mem_cons_of_mem _ hx)
-    cases cur with
-    | nil => simp [argsGo, c0, c58]
-    | cons x cur' =>
-      simp only [List.cons_append, argsGo, c0, ↓reduceIte, c58, ih ha', List.length_cons,
-        Nat.add_le_add_iff_right, List.drop_succ_cons, List.isPrefixOf, Bool.and_assoc]
+    simp only [List.cons_append, argsGo, c0, c58, ↓reduceIte, Bool.false_eq_true]
+    exact ih ha'
+
+/-- the `while` loop over one type alternative, `arg_str` inside a C string: no read
+    leaves the string (the comparison stops at the first mismatch, at the latest at the
+    terminating NUL) -/
+theorem argsGo_alt (args0 q : Bytes) (a : Bytes) (ha : ∀ c ∈ a, tagChar c = true) :
+    ∀ (tags rest : Bytes),
+    argsGo args0 (a ++ q) (tags ++ 0 :: rest) true =
+      if a.isPrefixOf tags then argsGo args0 q ((tags ++ 0 :: rest).drop a.length) true
+      else argsGo args0 q [] false := by
+  induction a with
+  | nil => intro tags rest; simp
+  | cons c a' ih =>
+    intro tags rest
+    obtain ⟨c0, c58⟩ := tagChar_ne (ha c List.mem_cons_self)
+    have ha' : ∀ c ∈ a', tagChar c = true := fun x hx => ha x (List.mem_cons_of_mem _ hx)
+    cases tags with
+    | nil =>
+      simp only [List.cons_append, List.nil_append, argsGo, c0, c58, ↓reduceIte, List.isPrefixOf,
+        Bool.false_eq_true]
+      have : (c == (0:UInt8)) = false := by simp [c0]
+      rw [this]
+      exact argsGo_alt_false args0 q a' ha' rest
+    | cons d t =>
+      simp only [List.cons_append, argsGo, c0, c58, ↓reduceIte, List.isPrefixOf, List.length_cons,
+        List.drop_succ_cons]
+      by_cases hcd : c = d
+      · subst hcd
+        simp only [beq_self_eq_true, Bool.true_and]
+        exact ih ha' t rest
+      · have : (c == d) = false := by simp [hcd]
+        simp only [this, Bool.false_and, Bool.false_eq_true, ↓reduceIte]
+        exact argsGo_alt_false args0 q a' ha' _
 
 theorem isPrefixOf_nulfree (a tags rest : Bytes) (ha : ∀ c ∈ a, tagChar c = true) :
     a.isPrefixOf (tags ++ 0 :: rest) = a.isPrefixOf tags := by
@@ -874,32 +914,25 @@ theorem drop_head_zero (a tags rest : Bytes) (htags : NulFree tags) (hp : a <+: 
     have : d ≠ 0 := htags d (by simp)
     simp [this]
 
-/-- **the type matcher on rendered alternatives**: either the documented value, or a
-    read past the buffer — and the latter only if some alternative is longer than what
-    is left of the buffer behind `arg_str`. -/
-theorem argsStart_types (tags rest : Bytes) (htags : NulFree tags) :
+/-- **the type matcher on rendered alternatives** (repaired code): the documented value,
+    whatever follows the type string's NUL in the buffer — nothing behind the NUL is read. -/
+theorem argsStart_types_eq (tags rest : Bytes) (htags : NulFree tags) :
     ∀ (ts : List Bytes), ts ≠ [] → (∀ a ∈ ts, ∀ c ∈ a, tagChar c = true) →
     (match ts with
      | [] => none
      | a :: ts' => argsStart (tags ++ 0 :: rest) (a ++ (renderTypeAlts ts' ++ [0])))
-      = some (typesCode ts tags) ∨
-    ((match ts with
-      | [] => none
-      | a :: ts' => argsStart (tags ++ 0 :: rest) (a ++ (renderTypeAlts ts' ++ [0]))) = none ∧
-      ∃ a ∈ ts, (tags ++ 0 :: rest).length < a.length) := by
+      = some (typesCode ts tags) := by
   intro ts
   induction ts with
   | nil => intro h; exact absurd rfl h
   | cons a ts' ih =>
     intro _ hts
     have ha := hts a List.mem_cons_self
-    have hpre := isPrefixOf_nulfree a tags rest ha
     cases ts' with
     | nil =>
       simp only [renderTypeAlts, List.nil_append]
       cases a with
       | nil =>
-        left
         cases tags with
         | nil => simp [argsStart, argsGo, typesCode]
         | cons d t =>
@@ -911,13 +944,9 @@ theorem argsStart_types (tags rest : Bytes) (htags : NulFree tags) :
             argsGo (tags ++ 0 :: rest) ((e :: a') ++ [0]) (tags ++ 0 :: rest) true := by
           simp [argsStart, e0]
         rw [hst, argsGo_alt _ _ _ ha]
-        by_cases hl : (e :: a').length ≤ (tags ++ 0 :: rest).length
-        · left
-          simp only [hl, ↓reduceIte, argsGo, Bool.true_and, hpre]
-          simp [typesCode]
-        · right
-          simp only [hl, ↓reduceIte, true_and]
-          exact ⟨_, List.mem_cons_self, by omega⟩
+        by_cases hp : (e :: a').isPrefixOf tags = true
+        · simp [hp, argsGo, typesCode]
+        · simp [hp, argsGo, typesCode]
     | cons b ts'' =>
       have hts' : ∀ a ∈ b :: ts'', ∀ c ∈ a, tagChar c = true := fun z hz => hts z (List.mem_cons_of_mem _ hz)
       have ih' := ih (by simp) hts'
@@ -932,32 +961,37 @@ theorem argsStart_types (tags rest : Bytes) (htags : NulFree tags) :
           simp [argsStart, e0]
       have hassoc : (b ++ renderTypeAlts ts'') ++ [0] = b ++ (renderTypeAlts ts'' ++ [0]) := by simp
       rw [hst, argsGo_alt _ _ _ ha]
-      by_cases hl : a.length ≤ (tags ++ 0 :: rest).length
-      · simp only [hl, ↓reduceIte, Bool.true_and, hpre, argsGo_colon, hassoc]
-        by_cases hp : a.isPrefixOf tags = true
-        · obtain ⟨x, t, hx, hxz⟩ := drop_head_zero a tags rest htags (List.isPrefixOf_iff_prefix.mp hp)
-          simp only [hp, ↓reduceIte, hx]
-          by_cases hx0 : x = 0
-          · left
-            have : a = tags := hxz.mp hx0
-            simp [hx0, typesCode, this]
-          · have hne : ¬ a = tags := fun h => hx0 (hxz.mpr h)
-            have hbeq : (a == tags) = false := by simp [hne]
-            simp only [hx0, ↓reduceIte, typesCode, hbeq, Bool.false_or]
-            rcases ih' with h | ⟨h1, z, hz, hzl⟩
-            · exact Or.inl h
-            · exact Or.inr ⟨h1, z, List.mem_cons_of_mem _ hz, hzl⟩
-        · have hne : ¬ a = tags := fun h => by
-            subst h
-            exact hp (List.isPrefixOf_iff_prefix.mpr (List.prefix_refl _))
+      by_cases hp : a.isPrefixOf tags = true
+      · obtain ⟨x, t, hx, hxz⟩ := drop_head_zero a tags rest htags (List.isPrefixOf_iff_prefix.mp hp)
+        simp only [hp, ↓reduceIte, hx, argsGo_colon, hassoc]
+        by_cases hx0 : x = 0
+        · have : a = tags := hxz.mp hx0
+          simp [hx0, typesCode, this]
+        · have hne : ¬ a = tags := fun h => hx0 (hxz.mpr h)
           have hbeq : (a == tags) = false := by simp [hne]
-          simp only [hp, Bool.false_eq_true, ↓reduceIte, typesCode, hbeq, Bool.false_or]
-          rcases ih' with h | ⟨h1, z, hz, hzl⟩
-          · exact Or.inl h
-          · exact Or.inr ⟨h1, z, List.mem_cons_of_mem _ hz, hzl⟩
-      · right
-        simp only [hl, ↓reduceIte, true_and]
-        exact ⟨a, List.mem_cons_self, by omega⟩
+          simp only [hx0, ↓reduceIte, typesCode, hbeq, Bool.false_or]
+          exact ih'
+      · have hne : ¬ a = tags := fun h => by
+          subst h
+          exact hp (List.isPrefixOf_iff_prefix.mpr (List.prefix_refl _))
+        have hbeq : (a == tags) = false := by simp [hne]
+        simp only [hp, Bool.false_eq_true, ↓reduceIte, argsGo_colon, hassoc, typesCode, hbeq, Bool.false_or]
+        exact ih'
+
+/-- The statement this lemma had before the repair fixes/C05-args-overread.patch (value, or a
+    read past the buffer when an alternative is longer than what is left of it); the second
+    disjunct is now impossible.  Kept because the C04 proofs use it in this form. -/
+theorem argsStart_types (tags rest : Bytes) (htags : NulFree tags) :
+    ∀ (ts : List Bytes), ts ≠ [] → (∀ a ∈ ts, ∀ c ∈ a, tagChar c = true) →
+    (match ts with
+     | [] => none
+     | a :: ts' => argsStart (tags ++ 0 :: rest) (a ++ (renderTypeAlts ts' ++ [0])))
+      = some (typesCode ts tags) ∨
+    ((match ts with
+      | [] => none
+      | a :: ts' => argsStart (tags ++ 0 :: rest) (a ++ (renderTypeAlts ts' ++ [0]))) = none ∧
+      ∃ a ∈ ts, (tags ++ 0 :: rest).length < a.length) :=
+  fun ts hne hch => Or.inl (argsStart_types_eq tags rest htags ts hne hch)
 
 
 theorem typesCode_of_mem {ts : List Bytes} {tags : Bytes} (h : tags ∈ ts) : typesCode ts tags = true := by
@@ -1088,16 +1122,27 @@ theorem argWhile_argsGo (args0 : Bytes) : ∀ (p a : Bytes) (am : Bool),
   | cons c r ih =>
     intro a am
     by_cases hc : c ≠ 0 ∧ c ≠ 58
-    · cases a with
-      | nil => simp [argWhile, argsGo, hc]
-      | cons x ar =>
-        have := ih ar (am && c == x)
-        simp only [argWhile, hc, ne_eq, not_false_eq_true, and_self, ↓reduceIte, argsGo]
+    · cases am with
+      | false =>
+        have := ih a false
+        simp only [argWhile, hc, ne_eq, not_false_eq_true, and_self, ↓reduceIte, argsGo,
+          Bool.false_eq_true]
         split
         · next h => simpa [h] using this
         · next p' a' am' h =>
           simp only [h] at this
           exact ⟨this.1, by simp only [List.length_cons]; omega, this.2.2⟩
+      | true =>
+        cases a with
+        | nil => simp [argWhile, argsGo, hc]
+        | cons x ar =>
+          have := ih ar (c == x)
+          simp only [argWhile, hc, ne_eq, not_false_eq_true, and_self, ↓reduceIte, argsGo]
+          split
+          · next h => simpa [h] using this
+          · next p' a' am' h =>
+            simp only [h] at this
+            exact ⟨this.1, by simp only [List.length_cons]; omega, this.2.2⟩
     · have hc' : c = 0 ∨ c = 58 := by
         by_cases h0 : c = 0
         · exact Or.inl h0
@@ -1302,22 +1347,21 @@ theorem mkMsg_shape (addr tags rest : Bytes) : ∃ ex, mkMsg addr tags rest = ad
   obtain ⟨k, hk⟩ := pad4_eq addr
   exact ⟨List.replicate k 0 ++ pad4 (44 :: tags) ++ rest, by simp [mkMsg, hk]⟩
 
-/-- `rtosc_match` on a pattern of the documented form and a laid-out message -/
+/-- `rtosc_match` on a pattern of the documented form and a laid-out message: a total
+    function of the address and the type string, whatever follows them in the buffer
+    (`rest` may be empty: nothing behind the padded type string is read). -/
 theorem full_rendered {p : Pat} (hwf : p.WF0) {addr tags : Bytes} (rest : Bytes)
     (ha : NulFree addr) (hb : IdxBounded addr) (ht : NulFree tags) :
-    ∃ ex k, mkMsg addr tags rest = addr ++ 0 :: ex ∧
-    match greedy p.segs p.sub addr with
-    | none => full p.cstr (mkMsg addr tags rest) = some (false, none)
-    | some t =>
-      match p.types with
-      | none => full p.cstr (mkMsg addr tags rest) = some (true, some (t ++ 0 :: ex))
-      | some ts =>
-        full p.cstr (mkMsg addr tags rest) = some (typesCode ts tags, some (t ++ 0 :: ex)) ∨
-        (full p.cstr (mkMsg addr tags rest) = none ∧
-          ∃ a ∈ ts, (tags ++ 0 :: (List.replicate k 0 ++ rest)).length < a.length) := by
+    ∃ ex, mkMsg addr tags rest = addr ++ 0 :: ex ∧
+    full p.cstr (mkMsg addr tags rest) =
+      match greedy p.segs p.sub addr with
+      | none => some (false, none)
+      | some t => some (match p.types with
+                        | none => true
+                        | some ts => typesCode ts tags, some (t ++ 0 :: ex)) := by
   obtain ⟨ex, hex⟩ := mkMsg_shape addr tags rest
   obtain ⟨k, hk⟩ := argString_mkMsg addr tags rest ha
-  refine ⟨ex, k, hex, ?_⟩
+  refine ⟨ex, hex, ?_⟩
   have hp := path_rendered hwf ex ha hb
   rw [← hex] at hp
   cases hg : greedy p.segs p.sub addr with
@@ -1336,12 +1380,10 @@ theorem full_rendered {p : Pat} (hwf : p.WF0) {addr tags : Bytes} (rest : Bytes)
         List.isEmpty_eq_false_iff, List.all_eq_true] at htw
       obtain ⟨a, ts', rfl⟩ := List.exists_cons_of_ne_nil htw.1
       simp only [hty, renderTypes, renderTypeAlts, List.cons_append, List.append_assoc] at hp
-      have hargs := argsStart_types tags (List.replicate k 0 ++ rest) ht (a :: ts') htw.1 htw.2
+      have hargs := argsStart_types_eq tags (List.replicate k 0 ++ rest) ht (a :: ts') htw.1 htw.2
       simp only at hargs
       simp only [full, hp, ↓reduceIte, hk, args_colon]
-      rcases hargs with h | ⟨h, hz⟩
-      · left; simp [h]
-      · right; exact ⟨by simp [h], hz⟩
+      simp [hargs]
 
 
 theorem isDigit_val {c : UInt8} (h : isDigit c = true) : c.toNat - 48 ≤ 9 := by
